@@ -452,4 +452,216 @@ theorem Map.retain_spec {R : Nat} (hR : 0 < R) (m : Map) (p : Pred) (o : Orc) (h
       have : absOf m k = none := (absOf_none_iff m k).2 (fun hin => hk ((hcov k).2 hin))
       rw [this]; split <;> rfl
 
+/-! ### `drain_filter` -/
+
+/-- abstract effect of visiting the keys `ks`: matching entries leave, the others get the mutation -/
+def specDrain (p : Pred) (a : Nat → Option Entry) (ks : List Nat) (k' : Nat) : Option Entry :=
+  if k' ∈ ks then (if p.test k' then none else (a k').map (bumpE k' p.add)) else a k'
+
+/-- what the visit of `ks` yields, in order -/
+def yieldOf (p : Pred) (a : Nat → Option Entry) (ks : List Nat) : List Entry :=
+  ks.filterMap (fun k => if p.test k then (a k).map (bumpE k p.add) else none)
+
+theorem specDrain_nil (p : Pred) (a : Nat → Option Entry) : specDrain p a [] = a := by
+  funext k'; simp [specDrain]
+
+theorem specDrain_append (p : Pred) (a : Nat → Option Entry) (l1 l2 : List Nat)
+    (hdis : ∀ k, k ∈ l1 → k ∉ l2) :
+    specDrain p (specDrain p a l1) l2 = specDrain p a (l1 ++ l2) := by
+  funext k'
+  unfold specDrain
+  by_cases h2 : k' ∈ l2
+  · have h1 : k' ∉ l1 := fun h => hdis k' h h2
+    simp [h1, h2]
+  · by_cases h1 : k' ∈ l1 <;> simp [h1, h2]
+
+theorem yieldOf_congr (p : Pred) (a b : Nat → Option Entry) (ks : List Nat) (h : ∀ k ∈ ks, a k = b k) :
+    yieldOf p a ks = yieldOf p b ks := by
+  unfold yieldOf
+  apply List.filterMap_congr
+  intro k hk; rw [h k hk]
+
+/-- **`drain_filter`'s loop** (`DrainFilter::next` called until `take` items came out, or to the
+    end when `take = none`): it stops after a prefix `pre` of the visiting order; the state denotes
+    the map with the matching visited entries removed and the others mutated; what was yielded are
+    exactly the matching visited entries, in order; the invariant holds (an old table emptied on the
+    way is released at once); the keys not yet visited are still where the iterator expects them. -/
+theorem drainFilterLoop_spec {R : Nat} (hR : 0 < R) (p : Pred) (nMain : Nat) :
+    ∀ (ks : List Nat) (i : Nat) (m : Map) (empt : Nat) (take : Option Nat) (acc : List Entry) (cost : Cost),
+      Inv R m → ks.Nodup → Placed nMain i ks m →
+      ∃ m' ys cost' restOut pre, Map.drainFilterLoop p nMain ks i m empt take acc cost = .ok (m', ys, cost', restOut) ∧
+        ks = pre ++ restOut ∧ Inv R m' ∧ absOf m' = specDrain p (absOf m) pre ∧
+        ys = acc.reverse ++ yieldOf p (absOf m) pre ∧
+        Placed nMain (i + pre.length) restOut m' ∧
+        (take = none → restOut = []) ∧
+        (∀ t, take = some t → (yieldOf p (absOf m) pre).length ≤ t ∧
+          (restOut ≠ [] → (yieldOf p (absOf m) pre).length = t)) ∧
+        cost'.allocs = cost.allocs ∧ cost'.hashes = cost.hashes ∧ cost'.moved = cost.moved ∧
+        cost'.dropped = cost.dropped := by
+  intro ks
+  induction ks with
+  | nil =>
+    intro i m empt take acc cost h _ _
+    refine ⟨m, acc.reverse, cost, [], [], rfl, rfl, h, by rw [specDrain_nil], by simp [yieldOf], trivial,
+      fun _ => rfl, fun t _ => ⟨by simp [yieldOf], fun hne => absurd rfl hne⟩, rfl, rfl, rfl, rfl⟩
+  | cons k rest ih =>
+    intro i m empt take acc cost h hnd ⟨hp1, hp2⟩
+    rw [List.nodup_cons] at hnd
+    unfold Map.drainFilterLoop
+    by_cases ht0 : take = some 0
+    · simp only [ht0, if_true]
+      refine ⟨m, acc.reverse, cost, k :: rest, [], rfl, rfl, h, by rw [specDrain_nil], by simp [yieldOf],
+        ⟨hp1, hp2⟩, fun hc => (by cases hc), fun t ht => ?_, rfl, rfl, rfl, rfl⟩
+      injection ht with ht; subst ht
+      exact ⟨by simp [yieldOf], fun _ => by simp [yieldOf]⟩
+    · simp only [ht0, if_false]
+      obtain ⟨b1, b2, b3, b4, b5, b6, b7⟩ := bump_spec h p.add hp1
+      have hplaced1 : Placed nMain (i + 1) rest (Map.bump m (Map.locOfIndex nMain i k) p.add) :=
+        Placed.of_keep k (fun k' _ hin => by rw [b2]; exact hin) (fun k' _ hin => by rw [b3]; exact hin)
+          rest (i + 1) hnd.1 hp2
+      cases htest : p.test k with
+      | false =>
+        simp only [Bool.false_eq_true, if_false]
+        obtain ⟨m', ys, c', ro, pre, hr, hks, hi, ha, hy, hpl, hnone, htk, c1, c2, c3, c4⟩ :=
+          ih (i + 1) _ empt take acc cost b1 hnd.2 hplaced1
+        have hkpre : k ∉ pre := fun hin => hnd.1 (by rw [hks]; exact List.mem_append_left _ hin)
+        have hyeq : yieldOf p (absOf (Map.bump m (Map.locOfIndex nMain i k) p.add)) pre = yieldOf p (absOf m) pre := by
+          apply yieldOf_congr
+          intro k' hk'
+          rw [b4 k']; unfold specMap
+          have : k' ≠ k := fun heq => hkpre (heq ▸ hk')
+          simp [this]
+        have hyk : yieldOf p (absOf m) (k :: pre) = yieldOf p (absOf m) pre := by
+          simp [yieldOf, htest]
+        refine ⟨m', ys, c', ro, k :: pre, hr, by rw [hks]; rfl, hi, ?_, ?_, ?_, hnone, ?_, c1, c2, c3, c4⟩
+        · rw [ha, funext b4]
+          funext k'
+          unfold specDrain specMap
+          by_cases hkk : k' = k
+          · subst hkk; simp [hkpre, htest]
+          · by_cases hr' : k' ∈ pre <;> simp [hkk, hr']
+        · rw [hy, hyeq, hyk]
+        · simp only [List.length_cons]; rw [show i + (pre.length + 1) = i + 1 + pre.length by omega]; exact hpl
+        · intro t ht; rw [hyk]; rw [hyeq] at htk; exact htk t ht
+      | true =>
+        simp only [if_true]
+        have hp1' : PlacedAt nMain i k (Map.bump m (Map.locOfIndex nMain i k) p.add) := by
+          unfold PlacedAt at hp1 ⊢
+          split
+          · rename_i hlt; simp only [hlt, if_true] at hp1; rw [b2]; exact hp1
+          · rename_i hlt; simp only [hlt, if_false] at hp1; rw [b3]; exact hp1
+        obtain ⟨e1, hf1⟩ := find_of_placed b1 hp1'
+        obtain ⟨m2, rc, he, hi2, hperm, hb2, hg2, ra, rh, rm, rd, _, _⟩ :=
+          removeAt_spec hR b1 hf1 (decide (0 < empt))
+        rw [he]
+        dsimp only
+        have hk1 := (find_loc b1 hf1).2.1
+        have htab := removeAt_tables he
+        have hlk : (Map.locOfIndex nMain i k).k = k := rfl
+        have hplaced2 : Placed nMain (i + 1) rest m2 :=
+          Placed.of_keep k (fun k' hk' hin => htab.1 k' (by rw [hlk]; exact hk') hin)
+            (fun k' hk' hin => htab.2 k' (by rw [hlk]; exact hk') hin) rest (i + 1) hnd.1 hplaced1
+        obtain ⟨m', ys, c', ro, pre, hr, hks, hi, ha, hy, hpl, hnone, htk, c1, c2, c3, c4⟩ :=
+          ih (i + 1) m2 (if (Map.locOfIndex nMain i k).inMain then empt - 1 else empt)
+            (take.map (· - 1)) (e1 :: acc) (cost + rc) hi2 hnd.2 hplaced2
+        have hkpre : k ∉ pre := fun hin => hnd.1 (by rw [hks]; exact List.mem_append_left _ hin)
+        have ha2 : absOf m2 = specDel (specMap (absOf m) k (bumpE k p.add)) k := by
+          funext k'
+          rw [abs_of_cons_perm hperm b1.nodup k', hk1, funext b4]
+        -- the element handed out is the stored one, mutated
+        have he1 : (absOf m k).map (bumpE k p.add) = some e1 := by
+          have := find_eq_abs b1 k
+          rw [hf1] at this
+          simp only [Option.map] at this
+          rw [b4 k] at this
+          unfold specMap at this
+          simp only [if_true] at this
+          exact this.symm
+        have hyeq : yieldOf p (absOf m2) pre = yieldOf p (absOf m) pre := by
+          apply yieldOf_congr
+          intro k' hk'
+          rw [ha2]; unfold specDel specMap
+          have : k' ≠ k := fun heq => hkpre (heq ▸ hk')
+          simp [this]
+        have hyk : yieldOf p (absOf m) (k :: pre) = e1 :: yieldOf p (absOf m) pre := by
+          simp only [yieldOf, List.filterMap_cons, htest, if_true, he1]
+        refine ⟨m', ys, c', ro, k :: pre, hr, by rw [hks]; rfl, hi, ?_, ?_, ?_, ?_, ?_, ?_, ?_, ?_, ?_⟩
+        · rw [ha, ha2]
+          funext k'
+          unfold specDrain specMap specDel
+          by_cases hkk : k' = k
+          · subst hkk; simp [hkpre, htest]
+          · by_cases hr' : k' ∈ pre <;> simp [hkk, hr']
+        · rw [hy, hyeq, hyk]; simp
+        · simp only [List.length_cons]; rw [show i + (pre.length + 1) = i + 1 + pre.length by omega]; exact hpl
+        · intro hn; apply hnone; rw [hn]; rfl
+        · intro t ht
+          rw [hyk]
+          have ht' : take.map (· - 1) = some (t - 1) := by rw [ht]; rfl
+          have := htk (t - 1) ht'
+          rw [hyeq] at this
+          have htpos : 0 < t := by
+            rcases Nat.eq_zero_or_pos t with h0 | h0
+            · exfalso; apply ht0; rw [ht, h0]
+            · exact h0
+          simp only [List.length_cons]
+          exact ⟨by omega, fun hne => by have := this.2 hne; omega⟩
+        · rw [c1]; simp [ra]
+        · rw [c2]; simp [rh]
+        · rw [c3]; simp [rm]
+        · rw [c4]; simp [rd]
+
+/-- **`drain_filter(f)`** pulled `take` times, then dropped or forgotten.  It yields exactly the
+    matching entries among those visited (each once, in visiting order, at most `take`); if the
+    iterator is *forgotten* only those are gone (entries visited but not matching keep the
+    closure's mutation, the rest of the map is untouched); if it is *dropped* every remaining
+    matching entry is removed as well.  The invariant holds in all cases. -/
+theorem Map.drainFilter_spec {R : Nat} (hR : 0 < R) (m : Map) (p : Pred) (take : Nat) (forget : Bool) (o : Orc)
+    (h : Inv R m) :
+    OkOr (Map.drainFilter m p take forget o) (fun r =>
+      Inv R r.1 ∧ ∃ pre rest, o.calls = pre ++ rest ∧
+        r.2.ret = .ents (yieldOf p (absOf m) pre) ∧ (yieldOf p (absOf m) pre).length ≤ take ∧
+        (forget = true → absOf r.1 = specDrain p (absOf m) pre) ∧
+        (forget = false → ∀ k, absOf r.1 k = if p.test k then none else (absOf m k).map (bumpE k p.add))) := by
+  unfold Map.drainFilter
+  cases hok : Map.iterOrderOk m o.calls with
+  | false => simp [OkOr]
+  | true =>
+    simp only [Bool.not_true, Bool.false_eq_true, if_false]
+    obtain ⟨hpl, hnd, hcov⟩ := placed_of_iterOrderOk m o.calls h hok
+    obtain ⟨m1, ys, c1, ro, pre, hr, hks, hi, ha, hy, hpl1, _, htk, _⟩ :=
+      drainFilterLoop_spec hR p m.main.ents.length o.calls 0 m o.empt (some take) [] {} h hnd hpl
+    rw [hr]
+    dsimp only
+    have hys : ys = yieldOf p (absOf m) pre := by simpa using hy
+    cases forget with
+    | true =>
+      simp only [if_true, OkOr]
+      exact ⟨hi, pre, ro, hks, by rw [hys], (htk take rfl).1, fun _ => ha, fun hc => (by cases hc)⟩
+    | false =>
+      simp only [Bool.false_eq_true, if_false]
+      have hlen : o.calls.length - ro.length = 0 + pre.length := by rw [hks]; simp
+      rw [hlen]
+      have hndro : ro.Nodup := by rw [hks] at hnd; exact (List.nodup_append.1 hnd).2.1
+      obtain ⟨m2, ys2, c2, ro2, pre2, hr2, hks2, hi2, ha2, _, _, hnone2, _, _⟩ :=
+        drainFilterLoop_spec hR p m.main.ents.length ro (0 + pre.length) m1
+          (o.empt - (ys.filter (fun e => (m.main.find? e.k).isSome)).length) none [] {} hi hndro hpl1
+      rw [hr2]
+      simp only [OkOr]
+      refine ⟨hi2, pre, ro, hks, by rw [hys], (htk take rfl).1, fun hc => (by cases hc), fun _ k => ?_⟩
+      have hro2 : ro2 = [] := hnone2 rfl
+      rw [hro2, List.append_nil] at hks2
+      rw [ha2, ha, ← hks2]
+      have hdis : ∀ k, k ∈ pre → k ∉ ro := by
+        intro k hk hk2
+        rw [hks] at hnd
+        exact (List.nodup_append.1 hnd).2.2 k hk k hk2 rfl
+      rw [specDrain_append p (absOf m) pre ro hdis, ← hks]
+      unfold specDrain
+      by_cases hk : k ∈ o.calls
+      · simp [hk]
+      · simp only [hk, if_false]
+        have : absOf m k = none := (absOf_none_iff m k).2 (fun hin => hk ((hcov k).2 hin))
+        rw [this]; split <;> rfl
+
 end Griddle
